@@ -39,6 +39,9 @@ var menu = []seg{
 	{"arc-ellipse-large-cw", oracle.CmdArc, []float64{2, 1, 0, 1, 1, 1}},
 	{"cube-cusp", oracle.CmdCube, []float64{3, 3, 0, 3, 3, 0}},
 	{"cube-serpentine", oracle.CmdCube, []float64{5, 5, -1, 4, 6, 3}}, // two inflection points inside (0,1)
+	// control point on the line through the end points and beyond the end point: the curve runs
+	// 2.25 to the right, turns and comes back to 2 (length 2.5; the speed vanishes at the turning point)
+	{"quad-collinear-overshoot", oracle.CmdQuad, []float64{3, 0, 2, 0}},
 }
 
 func appendSeg(d []float64, cur oracle.Pt, s seg) ([]float64, oracle.Pt) {
@@ -133,7 +136,7 @@ func paths(tier string) []pathCase {
 		ps = append(ps, concat(quadz, circle), closed(open(o, menu[6], menu[9])), concat(open(o, menu[2]), open(oracle.Pt{X: 1, Y: 1}, menu[2]), tri))
 	} else {
 		pairs := [][2]int{{0, 1}, {1, 0}, {0, 0}, {2, 0}, {0, 3}, {3, 1}, {1, 5}, {5, 0}, {0, 8}, {8, 1}, {3, 3}, {3, 5}, {5, 8}, {8, 3}, {9, 6}, {6, 10},
-			{10, 11}, {11, 4}, {4, 7}, {7, 9}, {12, 0}, {0, 12}, {8, 8}, {2, 2}, {8, 11}, {11, 8}}
+			{10, 11}, {11, 4}, {4, 7}, {7, 9}, {12, 0}, {0, 12}, {8, 8}, {2, 2}, {8, 11}, {11, 8}, {1, 14}, {14, 3}}
 		for _, pr := range pairs {
 			ps = append(ps, open(o, menu[pr[0]], menu[pr[1]]))
 		}
